@@ -1079,8 +1079,8 @@ impl<'source> Parser<'source> {
                     self.parse_expressions(&context.start_new_expression(), TempResult::No)?;
                 self.push_node_with_start_span(Node::Return(return_value), start_span)
             }
-            Token::Throw => self.consume_throw_expression(),
-            Token::Debug => self.consume_debug_expression(),
+            Token::Throw => self.consume_throw_expression(context),
+            Token::Debug => self.consume_debug_expression(context),
             Token::From | Token::Import => self.consume_import(context),
             Token::Export => self.consume_export(context),
             Token::Try => self.consume_try_expression(context),
@@ -2294,8 +2294,9 @@ impl<'source> Parser<'source> {
         }
     }
 
-    fn consume_throw_expression(&mut self) -> Result<AstIndex> {
-        self.consume_next_token_on_same_line(); // Token::Throw
+    fn consume_throw_expression(&mut self, context: &ExpressionContext) -> Result<AstIndex> {
+        // The keyword can be on an indented continuation line, e.g. after `x =`
+        self.consume_token_with_context(context); // Token::Throw
         let start_span = self.current_span();
 
         if let Some(expression) = self.parse_expression(&ExpressionContext::permissive())? {
@@ -2305,8 +2306,9 @@ impl<'source> Parser<'source> {
         }
     }
 
-    fn consume_debug_expression(&mut self) -> Result<AstIndex> {
-        self.consume_next_token_on_same_line(); // Token::Debug
+    fn consume_debug_expression(&mut self, context: &ExpressionContext) -> Result<AstIndex> {
+        // The keyword can be on an indented continuation line, e.g. after `x =`
+        self.consume_token_with_context(context); // Token::Debug
 
         let start_position = self.current_span().start;
 
